@@ -57,6 +57,7 @@ def check_schema(schema, acc=None):
     lmax = ref.max_len()
     n = 0
     prev_name = []
+    last_hit = None
     for toks in lvsgen.query_names(min(lmax + 1, 5)):
         name = comp_name(toks)
         want = ref.match(name)
@@ -70,6 +71,8 @@ def check_schema(schema, acc=None):
             except Exception:  # noqa
                 pass
         prev_name = name
+        if want:
+            last_hit = name
         for label, c in (('compiled', ck), ('loaded', ck2)):
             try:
                 got = lib_matches(c, list(name), ids)
@@ -101,6 +104,17 @@ def check_schema(schema, acc=None):
                 bad(f'match-raises:{type(e).__name__}@{tb_where(e)}|with-digest', f'match(/{"/".join(toks)}/<digest>) raised {e!r}')
         if viol:
             break
+    if not viol and last_hit is not None:
+        # what a query hands out is the caller's: editing it in place must not show in the next query
+        try:
+            for rules, ctx in ck.match(list(last_hit)):
+                rules.append('#scribble')
+                ctx.clear()
+            got = lib_matches(ck, list(last_hit), ids | {'#scribble'})
+            if got != ref.match(last_hit):
+                bad('edited-result-shows-in-next-query', f'after the caller edited the lists / dictionaries one query returned, the same query reports {fmt(got)}')
+        except Exception as e:  # noqa
+            bad(f'match-raises:{type(e).__name__}@{tb_where(e)}|after-edited-result', f'{e!r}')
     if acc is not None:
         acc.transitions += 3 * n
     return ('ok' if not viol else 'viol'), viol
